@@ -373,15 +373,15 @@ def c10d(ctx):
     if not fast:
         ctx.ok('LayerMerger.merge:no-fast-path', 'no single-layer fast path', mg)
     for r in fast:
-        st = enclosing(g.stmt[r], ast.If)
-        tab = ctx.rows(expr_table(st.test))
+        from .c14 import fast_path_table
+        st, tab = fast_path_table(ctx, mg, g, r)
         a_cov = [a for a in tab.atoms if a == 'coverage']
         a_lc = [a for a in tab.atoms if a == 'layer_coverage']
         a_clip = [a for a in tab.atoms if a.endswith('.clip')]
         ok = len(a_cov) == 1 and len(a_lc) == 1 and len(a_clip) == 1
         if ok:
             for asg, v, _ in tab.assignments():
-                if v and (asg[a_cov[0]] or (asg[a_lc[0]] and asg[a_clip[0]])):
+                if v == 'fast' and (asg[a_cov[0]] or (asg[a_lc[0]] and asg[a_clip[0]])):
                     ok = False
         ctx.check(ok, 'LayerMerger.merge:fast-path-off-with-coverage',
                   'the single-layer fast path is taken only without global coverage and without a clipping layer coverage', mg, st,
